@@ -18,6 +18,28 @@ from fractions import Fraction as Fr
 from vlib.coqlit import cnat, cz, cbool, clist, copt, cpair, cq
 from props import extlib
 
+# the image-level theorem files and their theorems (for the COQ_PROPS / THEOREMS of the property plugins)
+COQ_PROPS = ['Props/C03img.v', 'Props/C04img.v', 'Props/C05img.v', 'Props/C07img.v']
+THEOREMS = {'Props/C03img.v': ['C03img_data', 'C03img_affine', 'C03img_slice', 'C03img_refuse', 'C03img_never_crashes',
+                               'C03img_dim_argument', 'C03img_step_test'],
+            'Props/C04img.v': ['C04img_pieces', 'C04img_default_dim', 'C04img_ext_shape'],
+            'Props/C05img.v': ['C05img_split_merge', 'C05img_merge_split'],
+            'Props/C07img.v': ['C07img_merge', 'C07img_merge_sdim_partial', 'C07img_merge_sdim_refuted', 'C07img_split']}
+TRUSTED_BASE = ['coq/Wrapper/Model.v: hand model of NiftiWrapper.from_sequence / split / the final check_valid of __init__ '
+                '(tied to the code by the imgmerge / imgsplit / imgrt correspondence parts)',
+                'the two sqrt normalisations of NiftiWrapper.from_sequence are a function parameter `unitv` of the model; theorems '
+                'quantify over it; the correspondence instantiates it with exact rational square roots (Wrapper.Corr.unit_exact, '
+                'proved to satisfy the per-vector hypothesis unit_ok on rational-norm vectors)',
+                'tolerance literals 5e-4 / 1e-6 / numpy defaults of NiftiWrapper.from_sequence are written in Wrapper/Model.v '
+                '(no table translator); both sides of each threshold are exercised by the imgmerge error stream']
+ASSUMPTIONS = ['nibabel header book-keeping is not modelled: qform/sform codes and their float32 storage, intent, slice_duration, '
+               'slice_times, xyzt_units, freq/phase dim_info, dtype promotion; an image is (shape, C-order data, best affine, slice dim)',
+               'correspondence domain: images built in memory with nb.Nifti1Image(data, affine), affine entries dyadic and exact in '
+               'float32, every vector the code normalises has a rational norm (axis aligned / integer Pythagorean), comparisons not '
+               'within float rounding of a tolerance (error stream keeps a 2% margin); negative dim arguments only for from_sequence',
+               'float arithmetic is modelled exactly in Q; on the domain above every float operation of the implementation is exact '
+               'except the normalisations, whose rounding (1 ulp) is far inside the margins']
+
 ERRMAP = dict(extlib.ERRMAP, MissingExtensionError='EMissingExt', HeaderDataError='EHeaderData')
 
 # signatures of the known image-level findings (see known-findings.txt / DESIGN.md section 7)
